@@ -27,7 +27,7 @@ EPOCH_PERF = [job("$REPO/bucketteer", MOD + "/bucketteer", ["write.go"], sync=Fa
 CHECKS = {
     "C01": {
         "pkg": ".", "harness": MAINKIT + ["main/c01_test.go"], "run": "^TestVerif_C01$",
-        "level": "exploration", "instrument": EPOCH_PERF,
+        "level": "exploration", "instrument": EPOCH_PERF, "env": {"GOGC": "400"},
         "quick": {"shards": 16, "budget_s": 150},
         "thorough": {"shards": 16, "budget_s": 1800},
     },
@@ -46,7 +46,13 @@ CHECKS = {
     "C09": {
         "pkg": ".", "harness": ["main/kit_test.go", "main/c18_test.go", "main/c09_test.go"], "run": "^TestVerif_C09$",
         "level": "model_checking",
-        "instrument": [job("$REPO", MOD, ["multiepoch.go", "first-success.go"], imports={"golang.org/x/sync/errgroup": MOD + "/zzverif/verrgroup"}), ERRGROUP],
+        "variants": [
+            {"name": "locks", "run": "^TestVerif_C09$",
+             "instrument": [job("$REPO", MOD, ["multiepoch.go", "first-success.go"], imports={"golang.org/x/sync/errgroup": MOD + "/zzverif/verrgroup"}), ERRGROUP]},
+            {"name": "handlers", "run": "^TestVerif_C09_Handlers$",
+             "harness": ["main/kit_test.go", "main/epochkit_test.go", "main/c18_test.go", "main/c09_test.go", "main/c09_handlers_test.go"],
+             "instrument": [job("$REPO", MOD, ["multiepoch.go", "first-success.go"], imports={"golang.org/x/sync/errgroup": MOD + "/zzverif/verrgroup"}), ERRGROUP] + EPOCH_PERF},
+        ],
         "quick": {"shards": 16, "budget_s": 90},
         "thorough": {"shards": 16, "budget_s": 900},
     },
